@@ -41,14 +41,24 @@ structure Node (C D : Type) where
   sessions : List (Cfg C × SState D)
   /-- every digest this node has sent so far, on any session -/
   seen : List D
+  /-- `NodeServerState.authenticated_sessions`: what the `GetSessions` arm lists (node.rs:
+  `if state.authenticated_sessions.contains(actor_id) { map.insert(..) }`) -/
+  listed : List Nat := []
 
 inductive Op (D : Type) where
   /-- `ConnectionOpened{,External} { is_server }`; a client-side session carries the nonce `connId` -/
   | «open» (isServer : Bool) (thisName thisConn : String) (transitive : Bool) (connId : Nat)
   /-- one input handled by session `k` -/
   | input (k : Nat) (env : Env) (i : In D)
+  /-- the `NodeServer` takes sessions out of `authenticated_sessions`: the losers of the election in
+  `commit_authenticated`, or the cleanup on `ActorTerminated` / `ActorFailed` of a session — ANY set,
+  at ANY time (an over-approximation of node.rs, so the safety statements transfer) -/
+  | deauth (ks : List Nat)
 
-def empty {C D : Type} (cookie : C) : Node C D := { cookie := cookie, sessions := [], seen := [] }
+def empty {C D : Type} (cookie : C) : Node C D := { cookie := cookie, sessions := [], seen := [], listed := [] }
+
+/-- the `GetSessions` arm of `NodeServer::handle` -/
+def getSessions {C D : Type} (n : Node C D) : List Nat := n.listed
 
 section
 variable {C D : Type} [DecidableEq D] (H : C → Nat → D)
@@ -63,7 +73,10 @@ def step (n : Node C D) : Op D → Node C D × List (Effect D)
     | none => (n, [])
     | some (cfg, st) =>
       let r := Session.handle H cfg st env i
-      ({ n with sessions := n.sessions.set k (cfg, r.1), seen := n.seen ++ r.2.filterMap sentDigest }, r.2)
+      -- `ConnectionAuthenticated(myself)` cast by the session => `commit_authenticated` inserts it
+      ({ n with sessions := n.sessions.set k (cfg, r.1), seen := n.seen ++ r.2.filterMap sentDigest,
+                listed := if r.2.contains Effect.authenticated then n.listed ++ [k] else n.listed }, r.2)
+  | .deauth ks => ({ n with listed := n.listed.filter (fun j => !ks.contains j) }, [])
 
 /-- The trace: node state and effects after each op. -/
 def run (n : Node C D) : List (Op D) → List (Node C D × List (Effect D))
@@ -96,6 +109,7 @@ def isServerChallenge {D : Type} : In D → Bool
 def noServerChallenge {D : Type} : List (Op D) → Bool
   | [] => true
   | .input _ _ i :: rest => !isServerChallenge i && noServerChallenge rest
-  | _ :: rest => noServerChallenge rest
+  | .open _ _ _ _ _ :: rest => noServerChallenge rest
+  | .deauth _ :: rest => noServerChallenge rest
 
 end Multi
